@@ -143,6 +143,52 @@ def snap_real(E, terms, cap=20000):
         return ('cyclic',)
 
 
+def snap_real_iter(E, terms, cap=200000):
+    """like snap_real but without any Python recursion and without calling engine code (reads the
+    binding cells directly), so it also works under a lowered recursion limit (C17)."""
+    m = {}
+    out = []
+    for top in terms:
+        # iterative post-order construction
+        work = [('visit', top)]
+        vals = []
+        n = 0
+        while work:
+            n += 1
+            if n > cap:
+                return ('cyclic',)
+            op, t = work.pop()
+            if op == 'build':
+                name, k = t
+                args = vals[len(vals) - k:]
+                del vals[len(vals) - k:]
+                vals.append(('c', name, tuple(args)))
+                continue
+            while isinstance(t, E.Variable) and t._is_bound:
+                t = t._value
+            if isinstance(t, E.Variable):
+                k = id(t)
+                if k not in m:
+                    m[k] = len(m)
+                vals.append(('v', m[k]))
+            elif isinstance(t, E.Atom):
+                vals.append(('a', t._name))
+            elif isinstance(t, E.Functor):
+                work.append(('build', (t._name, len(t._args))))
+                for a in reversed(t._args):
+                    work.append(('visit', a))
+            elif isinstance(t, bool):
+                vals.append(('py', repr(t)))
+            elif isinstance(t, int):
+                vals.append(('i', t))
+            elif isinstance(t, str):
+                vals.append(('s', t))
+            else:
+                vals.append(('py', repr(t)))
+        out.append(vals[0])
+    return tuple(out)
+
+
 def snap_real_raw(E, terms, cap=20000):
     """Observe a real term WITHOUT dereferencing below the top: walks the
     stored structure as is (used by C15 to look at a saved get_value result:
